@@ -21,6 +21,11 @@ pub mod c15;
 pub mod c02;
 pub mod c07;
 pub mod c08;
+pub mod c11;
+pub mod c14;
+pub mod c18;
+pub mod c04;
+pub mod c03p;
 
 pub fn registry() -> Vec<(&'static str, fn())> {
     let mut v = Vec::new();
@@ -30,5 +35,14 @@ pub fn registry() -> Vec<(&'static str, fn())> {
     v.extend_from_slice(c02::LIST);
     v.extend_from_slice(c07::LIST);
     v.extend_from_slice(c08::LIST);
+    v.extend_from_slice(c11::LIST);
+    v.extend_from_slice(c14::LIST);
+    v.extend_from_slice(c18::LIST);
+    v.extend_from_slice(c04::LIST);
+    v.extend_from_slice(c03p::LIST);
+    v.extend_from_slice(c03p::d8::LIST);
+    v.extend_from_slice(c03p::d8m::LIST);
+    #[cfg(feature = "codecs")]
+    v.extend_from_slice(c04::arb::LIST);
     v
 }
